@@ -385,3 +385,15 @@ Print Assumptions c17_let_subst_identity.
 Theorem c17_let_subst_identity_at : ltac:(let t := type of rw_let_subst_identity_at in exact t).
 Proof. exact rw_let_subst_identity_at. Qed.
 Print Assumptions c17_let_subst_identity_at.
+
+(* InlineDefinedFuns at a use site (Model/InlineRw.v): the beta rule for eval.  The implementation has no capture guards
+   (known finding F19), so capture-freeness is a hypothesis (inline_side: formals of the shape (p S) with pairwise distinct
+   names that occur in the body in term positions only and are not bound again there; no leaf of an actual whose formal occurs
+   in the body is bound inside the body); every condition is shown necessary by an example in Props/C17Inline.v *)
+From DD Require Import Props.C17Inline.
+Theorem c17_inline_identity : ltac:(let t := type of rw_inline_identity in exact t).
+Proof. exact rw_inline_identity. Qed.
+Print Assumptions c17_inline_identity.
+Theorem c17_inline_beta_rule : ltac:(let t := type of inline_beta_rule in exact t).
+Proof. exact inline_beta_rule. Qed.
+Print Assumptions c17_inline_beta_rule.
